@@ -343,7 +343,20 @@ def run_case(case):
 
             def before(i):
                 state['step'] = i
+            def own_ids(when):
+                # the pin records an assembly holds (and writes to the pin
+                # dump) are labelled with its own id
+                for a_ in r.assemblies:
+                    if a_.has_rodded and hasattr(a_.rodded, 'pin_temps'):
+                        lab = np.unique(a_.rodded.pin_temps[:, 0])
+                        res.check('N4_pin_records_carry_own_id',
+                                  bool(len(lab) == 1 and lab[0] == a_.id),
+                                  'pin records of assembly %d are labelled '
+                                  '%r (%s)' % (a_.id, lab.tolist(), when),
+                                  dict(key, when=when))
+            own_ids('after construction')
             drive.sweep(r, before_step=before)
+            own_ids('after the sweep')
             hk.detach()
             req = float(r.req_dz)
             ids = [a.id for a in r.assemblies]
